@@ -197,3 +197,32 @@ example : (match topdown exOne with | .ok acts => (replayTopdown exOne acts).map
     = some true := by decide +kernel
 /-- arity above two is rejected by the oracle itself -/
 example : (match topdown exTop with | .error .valueError => true | _ => false) = true := by decide +kernel
+
+/-! ## T3 gap oracle -/
+
+/-- T3, partial correctness: WHENEVER the gap oracle returns a sequence for a well-formed tree of arity at
+    most two (continuous or not), that sequence replays to the tree.  No head hypothesis is needed here: the
+    oracle itself refuses (`valueError`) to reduce two nodes without head marks. -/
+theorem gap_replays_of_ok (t : Tree) (hwf : WF t = true) (hb : maxArity t ≤ 2) (acts : List Action)
+    (h : gapOracle t = .ok acts) : ∃ r, replayGap t acts = some r ∧ agrees t r = true :=
+  gap_sound t ⟨Lemmas.WF.WF_noEmpty t hwf, Lemmas.WF.WF_nodup t hwf, hb⟩ acts h
+
+/-- the hypothesis of T3 in decidable form -/
+def headsAll (t : Tree) : Bool := t.subtrees.all fun s => s.beq t || s.fields.head.isSome
+
+/-- the golden sequence of the suite (`TRANS_DISCONT_GAP_TRANSITIONS`) -/
+example : (gapOracle exGap).toOption = some [.shift, .shift, .shift, .r true "@S".toList, .shift, .shift,
+    .r true "@VP".toList, .shift, .shift, .unary "NP".toList, .r true "@SBAR".toList, .shift, .gap, .gap, .gap,
+    .r false "VP".toList, .gap, .gap, .r true "SBAR".toList, .r true "VP".toList, .r true "S".toList, .shift,
+    .r true "VROOT".toList] := by decide +kernel
+example : headsAll exGap = true ∧ headsAll exCont = true ∧ headsAll exOne = true := by decide +kernel
+example : (match gapOracle exGap with | .ok acts => (replayGap exGap acts).map (agrees exGap) | .error _ => none)
+    = some true := by decide +kernel
+example : (match gapOracle exCont with | .ok acts => (replayGap exCont acts).map (agrees exCont) | .error _ => none)
+    = some true := by decide +kernel
+/-- one token below a unary chain: the trailing `UNARY`s are emitted before the termination test (repair of D2) -/
+example : (gapOracle exOne).toOption = some [.shift, .unary "NP".toList, .unary "TOP".toList] := by decide +kernel
+example : (match gapOracle exOne with | .ok acts => (replayGap exOne acts).map (agrees exOne) | .error _ => none)
+    = some true := by decide +kernel
+
+end TT.Props.C10
